@@ -322,7 +322,7 @@ func run(c *lib.Ctx) {
 		"line/column numbers are not judged (the statement speaks of ranges inside the input), only byte offsets",
 		"go-cty and go-textseg behave as the yaotl code expects",
 		"wall time is recorded (max:parse_wall_us:*, meaningless on a loaded machine) but never judged; a hang is the driver's watchdog's business",
-		"diagnostics of templates inside JSON strings are position-checked only when the JSON text has no escapes and is valid UTF-8 (json/structure.go documents these positions as approximate otherwise)",
+		"diagnostics, traversal steps (Variables, AbsTraversalForExpr) and call ranges (ExprCall) of templates inside JSON strings are position-checked only when the JSON text has no escapes and is valid UTF-8 (json/structure.go documents these positions as approximate otherwise: they are computed over the decoded text)",
 		"error-free results of inputs with an exponent of 5+ digits or more than 10 '*' bytes are parsed, lexed and walked but not evaluated: evaluation cost is exponential in the input length there (number printing, chained splats), which the statement does not forbid and the monitor cannot interrupt",
 		"the evaluation context's own functions exclude range() and format(), whose result size is an argument")
 	// safety net on a shared machine: a memory explosion in the code under test becomes a
